@@ -149,7 +149,7 @@ pub fn tx_j(tx: &Transaction, facts: &vm::Facts, mint: J) -> J {
         "pk": match pk { Some(k) => json!({"ok": true, "key": poolkey_j(&k)}), None => json!({"ok": false, "key": {"l":"","r":"","lb":[],"rb":[],"liq":""}}) },
         "stakedoc": stakedoc_j(&tx.data),
         "mint": mint,
-        "marker": hx(&marker.txhash.0),
+        "marker": hx(&marker.txhash.0), "seenFaucet": false,
         "hex": hex::encode(stdcode::serialize(tx).unwrap()),
     })
 }
